@@ -370,7 +370,11 @@ def make_cases(pid, impl, tier, seed):
         n = {'quick': 120, 'thorough': 1000}[tier]
     if pid in ('C01', 'C02'):
         L = ops_language()
-        lg, lcf = MG.make_lang(impl, L)
+        try:
+            lg, lcf = MG.make_lang(impl, L)
+        except Exception as e:
+            yield {'L': L, 'error': repr(e)}
+            return
         for stream, m in ops_models(impl, lg, lcf, rng, tier):
             if pid == 'C01' or stream == 'dense':
                 yield {'L': L, 'lg': lg, 'm': m, 'stream': stream}
